@@ -2,6 +2,7 @@ SPECIFICATION Spec
 CONSTANT Kind = "ideal"
 CONSTANT MaxDepth <- Unbounded
 CONSTANT Deviation = "none"
+CONSTANT Setters = FALSE
 CONSTANT Export = FALSE
 VIEW AbstractView
 INVARIANT TypeOK
